@@ -152,18 +152,28 @@ func loadProgram(repoDir, verifDir string) (*Program, error) {
 			switch x := m.(type) {
 			case *ssa.Function:
 				P.fnByKey[P.fnKey(x)] = x
-				for _, an := range x.AnonFuncs {
-					P.fnByKey[P.fnKey(an)] = an
+				var regAnon func(f *ssa.Function)
+				regAnon = func(f *ssa.Function) {
+					for _, an := range f.AnonFuncs {
+						P.fnByKey[P.fnKey(an)] = an
+						regAnon(an)
+					}
 				}
+				regAnon(x)
 			case *ssa.Type:
 				for _, t := range []types.Type{x.Type(), types.NewPointer(x.Type())} {
 					ms := prog.MethodSets.MethodSet(t)
 					for j := 0; j < ms.Len(); j++ {
 						if fn := prog.MethodValue(ms.At(j)); fn != nil && fn.Pkg == spkgs[i] {
 							P.fnByKey[P.fnKey(fn)] = fn
-							for _, an := range fn.AnonFuncs {
-								P.fnByKey[P.fnKey(an)] = an
+							var regAnon func(f *ssa.Function)
+							regAnon = func(f *ssa.Function) {
+								for _, an := range f.AnonFuncs {
+									P.fnByKey[P.fnKey(an)] = an
+									regAnon(an)
+								}
 							}
+							regAnon(fn)
 						}
 					}
 				}
